@@ -583,6 +583,78 @@ pub fn check_step(cx: &StepCtx) -> Vec<Violation> {
         out.push(v("C17", "keeper-rate-above-one", format!("{}: keeper rate {}", kind, post.keeper_rate)));
     }
 
+    // an update that omits a field leaves the stored value unchanged (pause flag excepted)
+    if is_tx && ok {
+        if let Op::Tx { target, call, .. } = op {
+            match call {
+                Call::Hub(HubMsg::UParams(e, u, f, t, _p, rd)) if *target == HUB => {
+                    let p0: Option<basset::hub::Parameters> = cx.chain_pre.q(HUB, &basset::hub::QueryMsg::Parameters {}).ok();
+                    let p1: Option<basset::hub::Parameters> = cx.chain_post.q(HUB, &basset::hub::QueryMsg::Parameters {}).ok();
+                    if let (Some(p0), Some(p1)) = (p0, p1) {
+                        let mut moved: Vec<&str> = vec![];
+                        let mut bad = |n: &'static str| moved.push(n);
+                        if e.is_none() && p1.epoch_period != p0.epoch_period {
+                            bad("epoch_period");
+                        }
+                        if u.is_none() && p1.unbonding_period != p0.unbonding_period {
+                            bad("unbonding_period");
+                        }
+                        if f.is_none() && p1.peg_recovery_fee != p0.peg_recovery_fee {
+                            bad("peg_recovery_fee");
+                        }
+                        // an omitted threshold is re-clamped to 1, so a stored value above 1 (itself a
+                        // range violation reported above) is the only one that may move
+                        if t.is_none() && p1.er_threshold != p0.er_threshold && p0.er_threshold <= cosmwasm_std::Decimal::one() {
+                            bad("er_threshold");
+                        }
+                        if rd.is_none() && p1.reward_denom != p0.reward_denom {
+                            bad("reward_denom");
+                        }
+                        for n in moved {
+                            out.push(v("C20", "omitted-field-changed", format!("{}: {} was omitted but its stored value changed", kind, n)));
+                        }
+                        if p1.underlying_coin_denom != p0.underlying_coin_denom {
+                            out.push(v("C20", "coin-denom-changed", format!("{}: {} → {}", kind, p0.underlying_coin_denom, p1.underlying_coin_denom)));
+                        }
+                    }
+                }
+                Call::Disp(DispMsg::UConfig(h, r, _sd, bd, k, kr)) if *target == DISP => {
+                    let c0: Option<basset::dispatcher::ConfigResponse> = cx.chain_pre.q(DISP, &basset_sei_rewards_dispatcher::msg::QueryMsg::Config {}).ok();
+                    let c1: Option<basset::dispatcher::ConfigResponse> = cx.chain_post.q(DISP, &basset_sei_rewards_dispatcher::msg::QueryMsg::Config {}).ok();
+                    if let (Some(c0), Some(c1)) = (c0, c1) {
+                        let mut moved: Vec<&str> = vec![];
+                        let mut bad = |n: &'static str| moved.push(n);
+                        if h.is_none() && c1.hub_contract != c0.hub_contract {
+                            bad("hub_contract");
+                        }
+                        if r.is_none() && c1.bsei_reward_contract != c0.bsei_reward_contract {
+                            bad("bsei_reward_contract");
+                        }
+                        if bd.is_none() && c1.bsei_reward_denom != c0.bsei_reward_denom {
+                            bad("bsei_reward_denom");
+                        }
+                        if k.is_none() && c1.krp_keeper_address != c0.krp_keeper_address {
+                            bad("krp_keeper_address");
+                        }
+                        if kr.is_none() && c1.krp_keeper_rate != c0.krp_keeper_rate {
+                            bad("krp_keeper_rate");
+                        }
+                        if c1.owner != c0.owner || c1.swap_contract != c0.swap_contract || c1.oracle_contract != c0.oracle_contract || c1.swap_denoms != c0.swap_denoms {
+                            bad("owner/swap_contract/oracle_contract/swap_denoms (not part of UpdateConfig)");
+                        }
+                        for n in moved {
+                            out.push(v("C20", "omitted-field-changed", format!("{}: {} was omitted but its stored value changed", kind, n)));
+                        }
+                        if c1.stsei_reward_denom != c0.stsei_reward_denom {
+                            out.push(v("C20", "stsei-reward-denom-changed", format!("{}: {} → {}", kind, c0.stsei_reward_denom, c1.stsei_reward_denom)));
+                        }
+                    }
+                }
+                _ => {}
+            }
+        }
+    }
+
     if !cx.envelope {
         return out;
     }
@@ -1171,6 +1243,21 @@ pub fn check_step(cx: &StepCtx) -> Vec<Violation> {
                 let allowed = matches!(call, Call::Hub(HubMsg::UParams(..)) | Call::Hub(HubMsg::Migrate(..)));
                 if !allowed {
                     out.push(v("C11", "executed-while-paused", format!("{} succeeded while paused", kind)));
+                }
+            }
+        }
+        // of UpdateParams only the *owner's* goes through while paused, and the owner's is not
+        // turned away for lack of authority
+        if let Op::Tx { sender, target, call: call @ Call::Hub(HubMsg::UParams(..)), .. } = op {
+            if *target == HUB {
+                match authorised(cx.chain_pre, *sender, HUB, call) {
+                    Some(false) if ok => {
+                        out.push(v("C11", "non-owner-updateparams-while-paused", format!("UpdateParams by {} (not the owner) succeeded on a paused hub", sender)));
+                    }
+                    Some(true) if !ok && cx.err.to_lowercase().contains("unauthorized") => {
+                        out.push(v("C11", "owner-updateparams-refused-while-paused", format!("UpdateParams by the owner {} was refused as unauthorized on a paused hub", sender)));
+                    }
+                    _ => {}
                 }
             }
         }
